@@ -184,7 +184,6 @@ const (
 	DataTypesNonNull = ^DataTypeNull
 	DataTypesKeyable = DataTypeBool |
 		DataTypeInt |
-		DataTypeFloat |
 		DataTypeUID |
 		DataTypeTime |
 		DataTypeString |
@@ -673,7 +672,7 @@ var allRules = []Rule{
 		IncludeMethods: []*Method{End},
 		DefaultMethods: []*Method{
 			Child, Pad, Comment, Key, NonKey, List, Map, RecordType,
-			Record, Node, Edge, End, Marker, Ref, Array, Stringlike, ABegin,
+			Record, Node, Edge, End, Marker, Array, Stringlike, ABegin,
 		},
 	},
 	{
